@@ -25,7 +25,7 @@ from . import coqlit as L
 from .core import Relation, err_kind
 
 PROP = "C06"
-CLAIMED = False
+CLAIMED = True
 COQ_MODULES = ["C06_Check", "C06_Proofs", "C06_Proofs2", "C06_Proofs3", "C06_Proofs4", "C06_Proofs5"]
 PROPERTY_MODULE = "C06_Property"
 ALLOWED_AXIOMS = []
